@@ -328,7 +328,7 @@ func newMachine(rec *ev.Rec, cases []scriptCase, full bool, timeout time.Duratio
 		bc, err, pan := compileCase(c)
 		if err != nil && pan == "" && c.Kind == "gen" && !c.NoOptimize && strings.Contains(err.Error(), "ptimizer") {
 			// the optimizer reports constant expressions that fail (by design, C01): run the unoptimized program
-			rec.Exclude("optimizer-refused->NoOptimize")
+			rec.Class("gen-script-recompiled-with-NoOptimize(optimizer reports a failing constant expression)")
 			cases[ci].NoOptimize = true
 			c = cases[ci]
 			bc, err, pan = compileCase(c)
